@@ -129,7 +129,7 @@ pub fn run(p: &Params) -> (Stats, &'static str) {
     sim::install_observer();
     let mut st = Stats::new();
     let base = p.shard_seed("C01B");
-    let n = p.share(if p.tier_thorough { 200_000 } else { 4_000 });
+    let n = p.share(if p.tier_thorough { 4_000_000 } else { 4_000 });
     for i in 0..n {
         one(&mut st, mix(base, i));
         if st.too_many_violations() {
